@@ -739,6 +739,71 @@ def check_channel(res, spec, variants):
     return bad, (spec, dirs, queries)
 
 
+def live_bounds_case(variant, verbose=False):
+    """one reader object kept while the channel changes under it: a later session appends, an EARLIER session is
+    back-filled into free earlier periods, the oldest file is expired.  After every change the bounds it reports are
+    the first and last index a read returns -- the same as a fresh reader's.  -> problem or None"""
+    import digital_rf
+    root = common.scratch_dir("c08live-")
+    top = os.path.join(root, "top")
+    chdir = os.path.join(top, CHAN)
+    os.makedirs(chdir)
+    n, fc, sc = 100, 1000, 2
+    k0 = 1500000000 * n
+    cont, comp = variant
+
+    def session(first, lens, uuid):
+        w = digital_rf.DigitalRFWriter(chdir, np.dtype("i2"), sc, fc, k0 + first, n, 1, uuid_str=uuid, compression_level=comp,
+                                       is_complex=False, is_continuous=cont, num_subchannels=1, marching_periods=False)
+        off = 0
+        for ln, gap in lens:
+            w.rf_write(np.arange(ln, dtype="i2") + 1, off + gap)
+            off += gap + ln
+        w.close()
+
+    def extremes(reader):
+        b = reader.get_bounds(CHAN)
+        blocks = reader.get_continuous_blocks(b[0] - 50, b[1] + 50, CHAN) if b[0] is not None else {}
+        lo = min(blocks) if blocks else None
+        hi = max(int(s) + int(ln) - 1 for s, ln in blocks.items()) if blocks else None
+        return (None if b[0] is None else int(b[0]), None if b[1] is None else int(b[1])), (lo if lo is None else int(lo), hi)
+    session(405, [(130, 0), (40, 25)], "A")                       # periods 4 and 5
+    held = digital_rf.DigitalRFReader(top)
+    steps = [("the first session", None)]
+    steps.append(("a later session appended (period 8)", lambda: session(830, [(90, 0)], "C")))
+    steps.append(("an earlier session back-filled (periods 0 and 1)", lambda: session(5, [(120, 0)], "B")))
+    steps.append(("the oldest file expired", "expire"))
+    steps.append(("a still earlier period back-filled after the expiry", lambda: session(-200 + 7, [(30, 0)], "D")))
+    prob = None
+    for what, act in steps:
+        if act == "expire":
+            files = sorted(glob.glob(os.path.join(chdir, "*", "rf@*.h5")), key=os.path.basename)
+            os.remove(files[0])
+        elif act is not None:
+            act()
+        fresh = digital_rf.DigitalRFReader(top)
+        hb, hx = extremes(held)
+        fb, fx = extremes(fresh)
+        if verbose:
+            print("after %s: held reader bounds %s, extremes of what it reads %s; fresh reader bounds %s" % (what, hb, hx, fb))
+        if prob is None and not (hb == fb == hx == fx):
+            prob = (what, {"held_reader_bounds": hb, "held_reader_first_last_readable": hx, "fresh_reader_bounds": fb,
+                           "fresh_reader_first_last_readable": fx})
+    shutil.rmtree(root, True)
+    return prob
+
+
+def live_bounds_leg(res):
+    for variant in ((False, 0), (True, 0), (True, 1)):
+        res.count("reader-kept-while-channel-changes")
+        prob = live_bounds_case(variant)
+        if prob:
+            res.violation("bounds-of-kept-reader-not-the-readable-extremes", "a reader kept while the channel changes reports bounds that "
+                          "are not the first and last index it returns (after %s)" % prob[0],
+                          {"live_bounds": list(variant)}, "bounds == readable extremes == a fresh reader's", prob[1])
+            return
+
+
 VARIANTS = [(0, 0), (1, 1), (0, 1), (1, 0)]
 VNAME = {0: ("ExactRational", "SqueezeAxis1"), 1: ("LongDouble", "SqueezeAll")}
 
@@ -779,6 +844,7 @@ def run(res):
                 first_bad[v] = (spec, bad[v][0])
         if keep is None or len(ctx[2]) < len(keep[2]):
             keep = ctx
+    live_bounds_leg(res)
     agree = [v for v in VARIANTS if totals[v] == 0]
     res.extra["model_variants_agreeing"] = [[VNAME[lk][0], VNAME[sq][1]] for lk, sq in agree]
     res.extra["disagreements_per_variant"] = {"%s/%s" % (VNAME[lk][0], VNAME[sq][1]): totals[(lk, sq)]
@@ -820,6 +886,15 @@ def run(res):
 
 
 def replay(res, rp):
+    if isinstance(rp.get("input"), dict) and "live_bounds" in rp["input"]:
+        common.use_impl()
+        v = rp["input"]["live_bounds"]
+        print("channel at 100 Hz, one file per second, continuous=%s compression=%s; one reader object kept throughout" % (v[0], v[1]))
+        prob = live_bounds_case((bool(v[0]), int(v[1])), verbose=True)
+        if prob:
+            print("VIOLATION after %s:" % prob[0], prob[1])
+        print("replay verdict:", "STILL VIOLATING" if prob else "no longer violating")
+        return 1 if prob else 0
     common.use_impl()
     inp = rp["input"]
     spec, query = inp["spec"], inp["query"]
